@@ -306,7 +306,10 @@ def run_property(pid, tier, seed, update_lock=False, only=None, verbose=False):
         if not r["error"] and not r["instances"]:
             vac.append(f"{r['target']}: no obligation instance generated")
 
-    n_obl = len(obl)
+    n_known = sum(1 for e in obl.values() if e["verdict"] == "known-finding")
+    # obligations refuted by a listed known finding are reported separately (coverage.known_finding_obligations)
+    # and are not part of the proof claim
+    n_obl = len(obl) - n_known
     n_proved = sum(1 for e in obl.values() if e["verdict"] == "proved")
     wall = time.time() - t_start
 
@@ -343,6 +346,7 @@ def run_property(pid, tier, seed, update_lock=False, only=None, verbose=False):
             bounded_standins=spec.get("bounded", []),
             not_reached=spec.get("not_reached", []),
             known_findings=[k["what"] for k, _ in known_hits],
+            known_finding_obligations=[e["name"] for e in obl.values() if e["verdict"] == "known-finding"],
             cross_check=dict(concrete_inputs_replayed_on_real_code=xcheck["inputs"], disagreements=len(xcheck["disagreements"])),
             undecided=undecided,
             samples=samples,
